@@ -1,6 +1,7 @@
 import Verif.Lemmas.Carrier
 import Verif.Lemmas.Client
 import Verif.Lemmas.Detect
+import Verif.Lemmas.Instances
 
 /-! # C15 — client-observable behaviour does not depend on the transport carrying it
 
@@ -454,11 +455,29 @@ theorem c15_client_lazy_init (a : Answers ι ρ ε) (ops : List Op) (i : Nat) (e
         simp
 
 /-- an initialised client never initialises again: `initialize()` returns the cached server info
-without traffic, every other operation is exactly its helper -/
+without traffic, every other operation is at most its own helper's request (none when the helper
+rejects its arguments before writing) -/
 theorem c15_client_initialized_stable (a : Answers ι ρ ε) (st : St ι) (ops : List Op) (h : st.initialized = true) :
-    (run a st ops).1.initialized = true ∧ (run a st ops).2.2 = (ops.filter (· ≠ .init)).map Ev.request
+    (run a st ops).1.initialized = true ∧ (run a st ops).2.2.all isOtherReq = true
+    ∧ (run a st ops).2.2.length ≤ ops.length
     ∧ initOp a st = (st, .cached st.info, []) :=
-  ⟨(run_initialized a st ops h).1, (run_initialized a st ops h).2, initOp_initialized a st h⟩
+  ⟨(run_initialized a st ops h).1, (run_initialized a st ops h).2.1, (run_initialized a st ops h).2.2, initOp_initialized a st h⟩
+
+/-- **Arguments the helper rejects** (a tool name that is not a string, arguments that are not an
+object …): the operation still initialises a fresh client first, then raises without writing a
+request and without consuming an answer of the server — whatever the arguments were, the carrier
+never sees them. -/
+theorem c15_client_rejected_args (a : Answers ι ρ ε) (st : St ι) (op : Op) (e : ε) (hop : op ≠ .init)
+    (hrej : a.rejects st.nOp = some e) :
+    (st.initialized = true → (step a st op).2 = (.raised e, []) ∧ (step a st op).1.nCall = st.nCall)
+    ∧ (st.initialized = false → ∀ v info, a.inits st.nInit = .ok (v, info) →
+        (step a st op).2 = (.raised e, [.request .init, .setVersion v]) ∧ (step a st op).1.nCall = st.nCall) := by
+  have hs : step1 a st op = call a st op := by cases op <;> simp_all [step1]
+  constructor
+  · intro h
+    simp [step, hs, call, h, hrej]
+  · intro h v info hv
+    simp [step, hs, call, initOp, h, hv, hrej]
 
 /-- **The client layer is a function of the transcript only, hence carrier independent.**  Let
 `answers` be ANY reading of a read-stream transcript as helper outcomes (that is what C01 / C07 say
@@ -478,11 +497,13 @@ theorem c15_client_agnostic {σ μ : Type} (W : Wire σ μ) (conv : List (Exchan
 tool call, an explicit `initialize`, a prompt listing -/
 def exAnswers : Answers Nat Nat String :=
   { inits := fun k => if k = 0 then .error "refused" else .ok ("2025-06-18", 7),
-    calls := fun k => if k = 1 then .error "no such prompt" else .ok (100 + k) }
+    calls := fun k => if k = 1 then .error "no such prompt" else .ok (100 + k),
+    rejects := fun k => if k = 4 then some "name must be a string" else none }
 
-example : (run exAnswers St.fresh [.callTool, .callTool, .init, .listPrompts]).2.2
-      = [.request .init, .request .init, .setVersion "2025-06-18", .request .callTool, .request .listPrompts]
-    ∧ (run exAnswers St.fresh [.callTool, .callTool, .init, .listPrompts]).1.nInit = 2 := by
+example : (run exAnswers St.fresh [.callTool, .callTool, .init, .listPrompts, .callTool, .listTools]).2.2
+      = [.request .init, .request .init, .setVersion "2025-06-18", .request .callTool, .request .listPrompts, .request .listTools]
+    ∧ (run exAnswers St.fresh [.callTool, .callTool, .init, .listPrompts, .callTool, .listTools]).1.nInit = 2
+    ∧ (run exAnswers St.fresh [.callTool, .callTool, .init, .listPrompts, .callTool, .listTools]).1.nCall = 3 := by
   decide
 
 end client
@@ -623,5 +644,39 @@ example :
   decide
 
 end detect
+
+/-! ## 7. several transports of one kind alive in one process
+
+A host may hold two or three transports of the same kind at once.  In the model every instance has
+its own state by construction; the statement below is what that buys, for EVERY machine of the
+carrier models (`StdioIn.step`, `SseReq.feed`, `SseReq.step`, …): however the inputs of any number
+of instances are interleaved, each instance ends in the state, and has produced the outputs, it
+would have alone.  The harness runs 2–3 real transport instances per carrier simultaneously against
+this (`twin`), each with its own scripted server and equal request ids. -/
+section instances
+open Verif.Lemmas.Instances
+
+/-- **Instances are independent.** -/
+theorem c15_instances_independent {S E O : Type} (step : Machine S E O) (sts : Nat → S) (evs : List (Nat × E)) (i : Nat) :
+    (runTagged step sts evs).1 i = (runM step (sts i) (forInst i evs)).1
+    ∧ forInst i (runTagged step sts evs).2 = (runM step (sts i) (forInst i evs)).2 :=
+  instances_independent step sts evs i
+
+/-- … for the stdio reader: any number of readers, their reads interleaved in any way — each read
+stream is the one `StdioIn.run` (the model of C05 and of section 1) gives for that reader's own reads -/
+theorem c15_stdio_instances {μ : Type} (cfg : StdioIn.Cfg μ) (evs : List (Nat × StdioIn.Ev)) (i : Nat) :
+    StdioIn.delivered (forInst i (runTagged (StdioIn.step cfg) (fun _ => StdioIn.init) evs).2)
+      = StdioIn.delivered (StdioIn.run cfg StdioIn.init (forInst i evs)).2 := by
+  rw [(c15_instances_independent (StdioIn.step cfg) (fun _ => StdioIn.init) evs i).2, runM_stdio]
+
+/-- non-vacuity: two readers, reads interleaved, a line of reader 1 cut across reads of reader 0 -/
+example :
+    let evs : List (Nat × StdioIn.Ev) := [(1, .chunk [123]), (0, .chunk [123, 125, 10]), (1, .chunk [125]), (0, .chunk [91, 93, 10]), (1, .chunk [10])]
+    forInst 1 evs = [.chunk [123], .chunk [125], .chunk [10]]
+    ∧ StdioIn.delivered (forInst 1 (runTagged (StdioIn.step realStdio) (fun _ => StdioIn.init) evs).2)
+        = StdioIn.delivered (StdioIn.run realStdio StdioIn.init [.chunk [123], .chunk [125], .chunk [10]]).2 :=
+  ⟨rfl, c15_stdio_instances _ _ 1⟩
+
+end instances
 
 end Verif.Props.C15
